@@ -323,5 +323,6 @@ pub fn run(tier: Tier, seed: u64) -> i32 {
     ev.floor("near-miss assignments (one sub-identity on one row) refused by the real prover", ev.bucket_get("near_miss.end_to_end"), 20);
     ev.floor("sub-identities covered by near misses", ev.set_len("near_miss_identities") as u64, 5);
     ev.floor("cases run in a context of earlier calls on the operands", ev.bucket_get("context.cases"), 10);
+    ev.floor("copy-constraint-only forgeries on a consumer of the returned witness, through the real prover", ev.bucket_get("copybreak.end_to_end"), 2);
     ev.finish()
 }
